@@ -186,8 +186,11 @@ theorem hrunSrc_eq (h : Heap) (ops : List HOp) : hrunSrc h ops = hrun h ops := b
   have : hstepSrc = hstep := by funext h op; simp only [hstepSrc, hstep, opValueSrc_eq]; cases opValue h op <;> rfl
   simp [hrunSrc, hrun, this]
 
-/-- PROPERTY ("the lists an operation was applied to behave afterwards exactly as before", about the translated
-source): after ANY history of translated operations — operands aliased, results fed back, refused operations in
+/-- FRAME THEOREM OF THE HEAP MODEL, transported to operations computed by the translated source.  `hstepSrc` stores
+every result in a fresh cell BY DEFINITION: that the code does not write its operands is NOT proved here — it is tied to the
+code by the `Fresh` typing discipline of the translation (only an object created by the running method can be assigned
+`_callables`), by the measured receiver-write table (`receiver_writes_ok`) and by the oracle's aliased histories.
+Statement: after ANY history of translated operations — operands aliased, results fed back, refused operations in
 between — every list object that existed still holds the same callables, so every read of it returns the same value
 and evaluates the same chain as before -/
 theorem src_history_frame (e : Env) (ops : List HOp) (h : Heap) (a : Nat) (ha : a < h.length) (j : Nat) :
